@@ -31,3 +31,6 @@ func VBind(c *UDPConn, addr net.Addr) uint16 {
 	b.setState(bindingStateReady)
 	return b.number
 }
+
+// VNonce is the nonce the relayed socket would put into its next request.
+func (c *UDPConn) VNonce() []byte { return c.nonce() }
